@@ -288,6 +288,10 @@ pub struct RecvCase {
     pub active_ms: u64,
     pub last_pdu_ms: u64,
     pub first_fin_ms: Option<u64>,
+    /// net engine: the op lines are recorded as `<tag> <op...>` instead of `recv <op...>`
+    pub tag: Option<&'static str>,
+    pub last_emitted: Option<PDU>,
+    pub last_inds: Vec<Indication>,
 }
 
 fn union_insert(v: &mut Vec<(u64, u64)>, a: u64, b: u64) {
@@ -330,6 +334,14 @@ fn missing(v: &[(u64, u64)], n: u64) -> Vec<(u64, u64)> {
     out
 }
 
+/// `recv pdu X` -> `net r pdu X` when the case runs under the net engine
+pub fn shown_line(tag: Option<&'static str>, line: &str) -> String {
+    match tag {
+        Some(tag) => format!("{} {}", tag, line.splitn(2, ' ').nth(1).unwrap_or("")),
+        None => line.to_string(),
+    }
+}
+
 pub fn prepare_root(root: &Utf8Path) {
     std::fs::create_dir_all(root.join("d")).unwrap();
     std::fs::write(root.join("old"), b"OLD").unwrap();
@@ -361,10 +373,10 @@ impl RecvCase {
         };
         let np = if cfg.immediate { NakProcedure::Immediate(Duration::from_millis(cfg.delay_ms)) } else { NakProcedure::Deferred(Duration::from_millis(cfg.delay_ms)) };
         let t = RecvTransaction::new(config, np, filestore, ind_tx);
-        RecvCase { cfg, t, root, ind_rx, pdu_tx, pdu_rx, truth: RecvTruth::default(), hist: vec![], dead: false, now_ms: 0, active_ms: 0, last_pdu_ms: 0, first_fin_ms: None }
+        RecvCase { cfg, t, root, ind_rx, pdu_tx, pdu_rx, truth: RecvTruth::default(), hist: vec![], dead: false, now_ms: 0, active_ms: 0, last_pdu_ms: 0, first_fin_ms: None, tag: None, last_emitted: None, last_inds: vec![] }
     }
 
-    async fn settle(&mut self) -> Vec<Indication> {
+    pub async fn settle(&mut self) -> Vec<Indication> {
         for _ in 0..4 {
             tokio::task::yield_now().await;
         }
@@ -383,7 +395,11 @@ impl RecvCase {
     /// one op; returns the answer string
     pub async fn op(&mut self, out: &mut dyn Write, line: &str, viol: &mut u64) {
         let t: Vec<&str> = line.split_whitespace().collect();
+        let shown = shown_line(self.tag, line);
+        let line = shown.as_str();
         self.hist.push(line.to_string());
+        self.last_emitted = None;
+        self.last_inds.clear();
         if self.dead {
             rec(out, line, "dead");
             return;
@@ -487,6 +503,8 @@ impl RecvCase {
             _ => res = "bad-op".into(),
         }
         let inds = self.settle().await;
+        self.last_inds = inds.clone();
+        self.last_emitted = emitted.clone();
         let snap = self.t.verif_snapshot();
         let has = verif::recv_has_pdu_to_send(&self.t);
         let until = verif::recv_until_timeout(&self.t);
@@ -849,6 +867,9 @@ pub struct SendCase {
     pub first_eof_ms: Option<u64>,
     pub requested_total: u64,
     pub retx_total: u64,
+    pub tag: Option<&'static str>,
+    pub last_emitted: Option<PDU>,
+    pub last_inds: Vec<Indication>,
 }
 
 impl SendCase {
@@ -912,10 +933,13 @@ impl SendCase {
             first_eof_ms: None,
             requested_total: 0,
             retx_total: 0,
+            tag: None,
+            last_emitted: None,
+            last_inds: vec![],
         }
     }
 
-    async fn settle(&mut self) -> Vec<Indication> {
+    pub async fn settle(&mut self) -> Vec<Indication> {
         for _ in 0..4 {
             tokio::task::yield_now().await;
         }
@@ -933,7 +957,11 @@ impl SendCase {
 
     pub async fn op(&mut self, out: &mut dyn Write, line: &str, viol: &mut u64) {
         let t: Vec<&str> = line.split_whitespace().collect();
+        let shown = shown_line(self.tag, line);
+        let line = shown.as_str();
         self.hist.push(line.to_string());
+        self.last_emitted = None;
+        self.last_inds.clear();
         if self.dead {
             rec(out, line, "dead");
             return;
@@ -1005,6 +1033,8 @@ impl SendCase {
             _ => res = "bad-op".into(),
         }
         let inds = self.settle().await;
+        self.last_inds = inds.clone();
+        self.last_emitted = emitted.clone();
         let snap = if self.dead { "dead".to_string() } else { self.t.verif_snapshot() };
         let has = verif::send_has_pdu_to_send(&self.t);
         let until = verif::send_until_timeout(&self.t);
@@ -1531,13 +1561,32 @@ fn gen_send_script(rng: &mut Rng, cfg: &SendCfg, file: &[u8]) -> Vec<String> {
 }
 
 /// C03 exemptions: a limit fault that the user configured to be ignored or to suspend
-fn c03_exempt(fho: &str) -> bool {
+pub fn c03_exempt(fho: &str) -> bool {
     fho.split(';').any(|p| {
         let mut it = p.split(':');
         let c = it.next().unwrap_or("");
         let a = it.next().unwrap_or("");
         matches!(c, "1" | "7" | "8" | "10") && (a == "i" || a == "s")
     })
+}
+
+impl RecvCase {
+    /// the shared clock was advanced by an op recorded for the other party
+    pub fn note_adv(&mut self, ms: u64) {
+        self.now_ms += ms;
+        if !self.truth.suspended {
+            self.active_ms += ms;
+        }
+    }
+    pub fn state(&self) -> TransactionState {
+        verif::recv_state(&self.t)
+    }
+    pub fn has_pdu(&self) -> bool {
+        verif::recv_has_pdu_to_send(&self.t)
+    }
+    pub fn until(&self) -> Duration {
+        verif::recv_until_timeout(&self.t)
+    }
 }
 
 impl RecvCase {
@@ -1580,6 +1629,23 @@ impl RecvCase {
 }
 
 impl SendCase {
+    pub fn note_adv(&mut self, ms: u64) {
+        if !self.suspended {
+            self.now_ms += ms;
+        }
+    }
+    pub fn state(&self) -> TransactionState {
+        verif::send_state(&self.t)
+    }
+    pub fn has_pdu(&self) -> bool {
+        verif::send_has_pdu_to_send(&self.t)
+    }
+    pub fn until(&self) -> Duration {
+        verif::send_until_timeout(&self.t)
+    }
+}
+
+impl SendCase {
     pub async fn drain(&mut self, out: &mut dyn Write, viol: &mut u64) {
         if self.dead {
             return;
@@ -1616,11 +1682,11 @@ impl SendCase {
     }
 }
 
-fn runtime() -> tokio::runtime::Runtime {
+pub fn runtime() -> tokio::runtime::Runtime {
     tokio::runtime::Builder::new_current_thread().enable_time().start_paused(true).build().unwrap()
 }
 
-fn tmp_base(tag: &str) -> (tempfile::TempDir, Utf8PathBuf) {
+pub fn tmp_base(tag: &str) -> (tempfile::TempDir, Utf8PathBuf) {
     let td = tempfile::Builder::new().prefix(&format!("cfdp-verif-{}-", tag)).tempdir().expect("tempdir");
     let p = Utf8PathBuf::from_path_buf(td.path().to_path_buf()).unwrap();
     (td, p)
